@@ -260,6 +260,9 @@ impl Sender {
         // Re-attach the link
         self.inner.session = new_session.control.clone();
         self.inner.outgoing = new_session.outgoing.clone();
+        // The link now lives on this session: it is this session's stop reason that its
+        // operations have to report from now on
+        self.inner.link.session_stop_reason = new_session.session_stop_reason().clone();
         let attach_result = self
             .inner
             .resume_incoming_attach(None, is_reattaching)
@@ -1207,6 +1210,9 @@ impl DetachedSender {
         let is_reattaching = !self.inner.session.same_channel(&session.control);
         self.inner.session = session.control.clone();
         self.inner.outgoing = session.outgoing.clone();
+        // The link now lives on this session: it is this session's stop reason that its
+        // operations have to report from now on
+        self.inner.link.session_stop_reason = session.session_stop_reason().clone();
         self.resume_inner(is_reattaching).await
     }
 
@@ -1219,6 +1225,9 @@ impl DetachedSender {
         let is_reattaching = !self.inner.session.same_channel(&session.control);
         self.inner.session = session.control.clone();
         self.inner.outgoing = session.outgoing.clone();
+        // The link now lives on this session: it is this session's stop reason that its
+        // operations have to report from now on
+        self.inner.link.session_stop_reason = session.session_stop_reason().clone();
 
         try_as_sender!(
             self,
@@ -1239,6 +1248,9 @@ impl DetachedSender {
             let is_reattaching = !self.inner.session.same_channel(&session.control);
             self.inner.session = session.control.clone();
             self.inner.outgoing = session.outgoing.clone();
+            // The link now lives on this session: it is this session's stop reason that its
+            // operations have to report from now on
+            self.inner.link.session_stop_reason = session.session_stop_reason().clone();
             self.resume_with_timeout_inner(duration, is_reattaching).await
         }
 
@@ -1252,6 +1264,9 @@ impl DetachedSender {
             let is_reattaching = !self.inner.session.same_channel(&session.control);
             self.inner.session = session.control.clone();
             self.inner.outgoing = session.outgoing.clone();
+            // The link now lives on this session: it is this session's stop reason that its
+            // operations have to report from now on
+            self.inner.link.session_stop_reason = session.session_stop_reason().clone();
             self.resume_incoming_attach_with_timeout_inner(remote_attach, duration, is_reattaching)
                 .await
         }
